@@ -7,6 +7,7 @@
 package gmtls
 
 import (
+	"bytes"
 	"crypto"
 	"crypto/ecdsa"
 	"crypto/rsa"
@@ -364,10 +365,7 @@ func (hs *serverHandshakeStateGM) doFullHandshake() error {
 	}
 
 	certMsg := new(certificateMsg)
-	//certMsg.certificates = hs.cert.Certificate
-	for i := 0; i < len(hs.cert); i++ {
-		certMsg.certificates = append(certMsg.certificates, hs.cert[i].Certificate...)
-	}
+	certMsg.certificates = gmCertificateList(hs.cert)
 	hs.finishedHash.Write(certMsg.marshal())
 	if _, err := c.writeRecord(recordTypeHandshake, certMsg.marshal()); err != nil {
 		return err
@@ -645,6 +643,34 @@ func (hs *serverHandshakeStateGM) sendFinished(out []byte) error {
 	copy(out, finished.verifyData)
 
 	return nil
+}
+
+// gmCertificateList lays out the Certificate message of a GMSSL server as GM/T 0024
+// prescribes: the signing certificate, the encryption certificate, then the CA
+// certificates of both chains (and whatever further entries are configured), each
+// of them once. The peer takes positions 0 and 1 for the two end-entity
+// certificates, so the chain of the signing certificate must not come in between.
+func gmCertificateList(certs []Certificate) [][]byte {
+	var list, rest [][]byte
+	for i, cert := range certs {
+		chain := cert.Certificate
+		if i < 2 && len(chain) > 0 {
+			list = append(list, chain[0])
+			chain = chain[1:]
+		}
+		rest = append(rest, chain...)
+	}
+	leaves := len(list)
+next:
+	for _, der := range rest {
+		for _, sent := range list[leaves:] {
+			if bytes.Equal(sent, der) {
+				continue next
+			}
+		}
+		list = append(list, der)
+	}
+	return list
 }
 
 // processCertsFromClient takes a chain of client certificates either from a
